@@ -354,6 +354,13 @@ def roundtrip_after_change(rep, repo, mod, cls, kw):
         pe.getattr(q, "update_qnoise_factor"), [F(1, 4)], {})))
     changes.append(("update_qnoise_factor(0)", lambda pe, q: pe.call(
         pe.getattr(q, "update_qnoise_factor"), [F(0)], {})))
+  if "set_internal_sigmoid" in mod.functions:
+    # the library's switch of its internal sigmoid (module state): the live
+    # object and the one rebuilt afterwards must follow it alike
+    for mode in ("smooth", "real"):
+      changes.append(("set_internal_sigmoid(%r)" % mode, lambda pe, q,
+                      mode=mode: pe.call(pe.lookup_global(
+                          "set_internal_sigmoid", mod), [mode], {})))
   if cls == "quantized_linear":
     # its constructor documents alpha, symmetric and qnoise_factor as
     # modifiable attributes
@@ -402,6 +409,71 @@ def roundtrip_after_change(rep, repo, mod, cls, kw):
                   cfg, changed, "" if bad is None else "; %s forward %s vs "
                   "%s" % (bad[0], show(bad[1], 140), show(bad[2], 140))),
               loc=loc, instance=cfg)
+  return n
+
+
+def rule_setters(rep, repo, mod, cls, base, alts, rule="R7"):
+  """R7: a constructor option that the class exposes through a property
+  SETTER is one the class promises to honour when assigned on a live object
+  (that is what the setter is for: keeping derived state in step).  After
+  `q.opt = v` the object computes the function of a quantizer freshly built
+  with opt=v (all other options equal), also when q was called before."""
+  ci = mod.classes[cls]
+  params = [p_ for p_, _ in ci.init_params()[0]]
+  n = 0
+  for opt in params:
+    owner, fn = ci.find_method(opt + ".setter")
+    if fn is None:
+      continue
+    unit = "%s::%s.%s.setter" % (mod.relpath, cls, opt)
+    vals = []
+    for v in alts.get(opt, []):
+      ctx = {}
+      if isinstance(v, tuple):
+        v, ctx = v
+      vals.append((v, ctx))
+    # larger / smaller values than the lattice alternative as well
+    if opt == "max_value":
+      vals += [(F(64), {}), (F(16), {}), (F(1, 4), {})]
+    for v, ctx in vals:
+      kw_a = dict(base)
+      kw_a.update(ctx)
+      kw_b = dict(kw_a)
+      kw_b[opt] = v
+      for first, second in ((kw_a, kw_b), (kw_b, kw_a)):
+        if opt not in second:
+          continue
+        for called in (False, True):
+          cfg = "%s(%s)%s then q.%s = %s" % (
+              cls, show_kw(first), " called once," if called else "", opt,
+              show_kw({opt: second[opt]}).split("=", 1)[1])
+          pe = PE(repo)
+          cref = pe.lookup_global(cls, mod)
+          try:
+            q = pe.call(cref, [], dict(first))
+            if called:
+              pe.call(q, [pe.x_input()], {})
+            pe.setattr(q, opt, second[opt])
+            fresh = pe.call(cref, [], dict(second))
+            pe.rand_counter = 0
+            o1 = pe.call(q, [pe.x_input()], {})
+            pe.rand_counter = 0
+            o2 = pe.call(fresh, [pe.x_input()], {})
+          except PyRaise:
+            continue
+          n += 1
+          syms = {"post_training_scale": NF.sym("pts")}
+          bad = None
+          for ph in ("infer", "train"):
+            f1, f2 = Fwd(ph, syms)(o1.term), Fwd(ph, syms)(o2.term)
+            if not equal_mod_finite(f1, f2):
+              bad = bad or (ph, f1, f2)
+          rep.check(bad is None, rule, unit, "setter-leaves-stale-state",
+                    "%s: the object differs from a freshly built %s(%s)%s" % (
+                        cfg, cls, show_kw(second), "" if bad is None else
+                        ": %s forward %s vs %s" % (
+                            bad[0], show(bad[1], 140), show(bad[2], 140))),
+                    loc=owner.module.loc(fn), instance=cfg)
   return n
 
 
@@ -530,6 +602,9 @@ def run(rep, repo, tier):
                                            dict(base, alpha=F(3)))
     rep.extra["roundtrips_after_change"] = rep.extra.get(
         "roundtrips_after_change", 0) + nchanged
+    rep.extra["property_setter_assignments_checked"] = rep.extra.get(
+        "property_setter_assignments_checked", 0) + rule_setters(
+            rep, repo, mod, cls, base, alts)
     for p, vals in sorted(alts.items()):
       if p not in params:
         continue
